@@ -763,11 +763,17 @@ def mv_eq(ctx):
     for c1 in (0, 1, 2):
         for c2 in (0, 1, 2):
             rc = Reach(facts, body, Evaluator(facts, bool_atom=atom, assumption={'found1': c1, 'found2': c2}))
-            res[(c1, c2)] = (any(b in rc.reachable for b, _ in false_s), any(b in rc.reachable for b, _ in true_s))
+            # the constants the function can return on the surviving paths (the result may travel through locals: `a && b`,
+            # a helper's return value)
+            vals = set()
+            for rb in rc.return_blocks():
+                if rb in rc.reachable:
+                    vals |= set(rc._values_at(0, rb))
+            res[(c1, c2)] = (0 in vals or None in vals, 1 in vals or None in vals)
             if (c1, c2) == (1, 1):
                 panics = [bi for bi, blk in enumerate(body.blocks) if not blk.get('cleanup') and blk['term'].get('k') == 'call'
                           and blk['term'].get('target') is None]
-                must_true = bool(true_s) and rc.must_pass([b for b, _ in true_s]) and not any(b in rc.reachable for b in panics)
+                must_true = vals == {1} and not any(b in rc.reachable for b in panics)
     errs = []
     if set(scans) != {1, 2}:
         errs.append('equality does not look for every value of each side among the values of the other side (scanned sides: %s)' % sorted(scans))
